@@ -1,0 +1,55 @@
+//go:build verif
+
+// Contracts for the deductive verifier in /verif (comment-only file; see /verif/DESIGN.md).
+
+package service
+
+// ---------------------------------------------------------------------------
+// Relay buffer layout (property C05). A relay receives a packet at offset `front` of a buffer of size
+// front + recv + rear, unpacks it in place with unpacker U and re-packs the payload in place with packer P,
+// where (front, rear) = zerocopy.UDPRelayHeadroom(maxPackerHeadroom, U's headroom) and maxPackerHeadroom is
+// at least P's headroom (service/service.go takes the maximum over all clients). The lemmas say: what every
+// unpacker's contract guarantees (payloadStart >= packetStart + its fixed header + address length,
+// payloadStart + payloadLen + its rear == packetStart + packetLen) implies what every packer's contract
+// requires (payloadStart >= its fixed header + address length, payloadStart + payloadLen + its rear <= len(b)).
+// Headroom values are read from the code (package variables, ShadowPacketClientMessageHeadroom, UDPRelayHeadroom).
+// ---------------------------------------------------------------------------
+
+// uplink: server unpacker (client -> relay) then client packer (relay -> upstream); the address is the target address, a = its SOCKS length
+//@ pure upUnpacker(uh zerocopy.Headroom, ufixed int, urear int, idu int) bool = (uh.Front == 0 && uh.Rear == 0 && ufixed == 0 - 259 && urear == 0) || (uh == direct.ShadowsocksNonePacketClientMessageHeadroom && ufixed == 0 && urear == 0) || (uh == direct.Socks5PacketClientMessageHeadroom && ufixed == 3 && urear == 0) || ((idu == 0 || idu == 16) && uh == ss2022.ShadowPacketClientMessageHeadroom(idu) && ufixed == 16 + idu + 11 && urear == 16)
+//@ pure upPacker(ph zerocopy.Headroom, pfixed int, prear int, k int) bool = (ph.Front == 0 && ph.Rear == 0 && pfixed == 0 - 259 && prear == 0) || (ph == direct.ShadowsocksNonePacketClientMessageHeadroom && pfixed == 0 && prear == 0) || (ph == direct.Socks5PacketClientMessageHeadroom && pfixed == 3 && prear == 0) || (0 <= k && k <= 1024 && ph == ss2022.ShadowPacketClientMessageHeadroom(16 * k) && pfixed == 16 + 16 * k + 11 && prear == 16)
+
+// For the direct protocol the address is not in the packet: "fixed header + a" is 0, encoded as fixed = -259 with a <= 259
+// only ever making the requirement weaker for the packer and the guarantee weaker for the unpacker (see relayUplink).
+
+//@ lemma relayUplink(a int, idu int, k int, uh zerocopy.Headroom, ufixed int, urear int, ph zerocopy.Headroom, pfixed int, prear int, maxph zerocopy.Headroom, recv int, n int, packetStart int, payloadStart int, payloadLen int, buflen int)
+//@   requires 5 <= a && a <= 259 && 0 <= recv && recv <= 1 << 20 && 0 <= n && n <= recv
+//@   requires upUnpacker(uh, ufixed, urear, idu) && upPacker(ph, pfixed, prear, k)
+//@   requires maxph.Front >= ph.Front && maxph.Rear >= ph.Rear && maxph.Front <= 1 << 20 && maxph.Rear <= 1 << 20
+//@   requires packetStart == zerocopy.UDPRelayHeadroom(maxph, uh).Front
+//@   requires buflen == zerocopy.UDPRelayHeadroom(maxph, uh).Front + recv + zerocopy.UDPRelayHeadroom(maxph, uh).Rear
+//@   requires payloadStart >= packetStart + max(0, ufixed + a) && payloadLen >= 0 && payloadStart <= packetStart + n && payloadStart + payloadLen + urear == packetStart + n
+//@   ensures payloadStart >= max(0, pfixed + a)
+//@   ensures payloadStart + payloadLen + prear <= buflen
+//@   ensures 0 <= payloadStart && payloadStart <= buflen && payloadLen <= buflen
+
+// downlink: client unpacker (upstream -> relay) then server packer (relay -> client); the address is the packet's source, s = 7 or 19
+//@ pure downUnpacker(uh zerocopy.Headroom, ufixed int, urear int) bool = (uh.Front == 0 && uh.Rear == 0 && ufixed == 0 - 19 && urear == 0) || (uh == direct.ShadowsocksNonePacketServerMessageHeadroom && ufixed == 0 && urear == 0) || (uh == direct.Socks5PacketServerMessageHeadroom && ufixed == 3 && urear == 0) || (uh == ss2022.ShadowPacketServerMessageHeadroom && ufixed == 16 + 19 && urear == 16)
+//@ pure downPacker(ph zerocopy.Headroom, pfixed int, prear int) bool = (ph.Front == 0 && ph.Rear == 0 && pfixed == 0 - 19 && prear == 0) || (ph == direct.ShadowsocksNonePacketServerMessageHeadroom && pfixed == 0 && prear == 0) || (ph == direct.Socks5PacketServerMessageHeadroom && pfixed == 3 && prear == 0) || (ph == ss2022.ShadowPacketServerMessageHeadroom && pfixed == 16 + 19 && prear == 16)
+
+//@ lemma relayDownlink(s int, uh zerocopy.Headroom, ufixed int, urear int, ph zerocopy.Headroom, pfixed int, prear int, recv int, n int, packetStart int, payloadStart int, payloadLen int, buflen int)
+//@   requires (s == 7 || s == 19) && 0 <= recv && recv <= 1 << 20 && 0 <= n && n <= recv
+//@   requires downUnpacker(uh, ufixed, urear) && downPacker(ph, pfixed, prear)
+//@   requires packetStart == zerocopy.UDPRelayHeadroom(ph, uh).Front
+//@   requires buflen == zerocopy.UDPRelayHeadroom(ph, uh).Front + recv + zerocopy.UDPRelayHeadroom(ph, uh).Rear
+//@   requires payloadStart >= packetStart + max(0, ufixed + s) && payloadLen >= 0 && payloadStart <= packetStart + n && payloadStart + payloadLen + urear == packetStart + n
+//@   ensures payloadStart >= max(0, pfixed + s)
+//@   ensures payloadStart + payloadLen + prear <= buflen
+//@   ensures 0 <= payloadStart && payloadStart <= buflen && payloadLen <= buflen
+
+// MTU-derived limits: exactly MTU - 28 for IPv4, MTU - 48 for IPv6 (MTU - 56 with the jumbo payload option).
+//@ lemma maxPacketSizeForAddr(mtu int, addr netip.Addr)
+//@   requires 0 <= mtu && mtu <= 1 << 30
+//@   ensures (addr.Is4() || addr.Is4In6()) ==> zerocopy.MaxPacketSizeForAddr(mtu, addr) == mtu - 28
+//@   ensures !(addr.Is4() || addr.Is4In6()) && mtu <= 65575 ==> zerocopy.MaxPacketSizeForAddr(mtu, addr) == mtu - 48
+//@   ensures !(addr.Is4() || addr.Is4In6()) && mtu > 65575 ==> zerocopy.MaxPacketSizeForAddr(mtu, addr) == mtu - 56
